@@ -11,6 +11,7 @@ RULE = ('Hypothesis draws (T, v) from U and one member of BER(T, v) from the ref
         'binary REAL mantissa); the variant is first validated by the reference reader; oracle: ber.decode(variant, asn1Spec=T) '
         'returns v with empty remainder. Non-trivial = at least one choice point taken differently from the canonical (DER) form; '
         'distinct = distinct variant bytes.')
+RULE += (' ' + 'Also drawn: binary REAL in base 8 / 16 with scaling factor and each of the exponent length forms (one to three octets incl. sign extension, length-prefixed), decimal REAL as NR1 / NR2 / NR3, up to 126 length octets; one case in eight comes from a numbers-only universe.')
 ASSUMPTIONS = ['pv/core/x690.py writes only encodings X.690 permits (choice points whose legality is not certain are not drawn: '
                'zero-segment constructed strings, non-minimal INTEGER/OID/tag numbers, non-zero unused bits, REAL bases 8/16)']
 SHARDS = {'quick': (16, 250), 'thorough': (16, 6000)}
